@@ -192,49 +192,73 @@ func streamBuiltins(o *Out, r *rand.Rand, n int, thorough bool) {
 	emitRange([]int64{1, 2, 3, 4})
 	emitRange([]int64{1, 5, 0})
 
-	// package tables: every function offered to import is the Go function whose name it is listed under
-	pkgNames := make([]string, 0, len(env.Packages))
-	for p := range env.Packages {
-		pkgNames = append(pkgNames, p)
-	}
-	sort.Strings(pkgNames)
-	for _, p := range pkgNames {
-		for k, v := range env.Packages[p] {
-			o.Sum.Evaluations++
-			o.Sum.Hist["package-entries"]++
-			if v.Kind() != reflect.Func || v.IsNil() {
-				continue
+	checkTables := func(when string) {
+		// package tables: every function offered to import is the Go function whose name it is listed under
+		pkgNames := make([]string, 0, len(env.Packages))
+		for p := range env.Packages {
+			pkgNames = append(pkgNames, p)
+		}
+		sort.Strings(pkgNames)
+		for _, p := range pkgNames {
+			for k, v := range env.Packages[p] {
+				o.Sum.Evaluations++
+				o.Sum.Hist["package-entries"]++
+				if v.Kind() != reflect.Func || v.IsNil() {
+					continue
+				}
+				fn := runtime.FuncForPC(v.Pointer())
+				if fn == nil {
+					continue
+				}
+				name := fn.Name() // e.g. strings.Contains, net/http.Get, github.com/mattn/anko/packages.init.func1
+				if strings.Contains(name, "mattn/anko/packages") || strings.Contains(name, "-fm") || strings.Contains(name, ".func") {
+					continue // helper defined in packages/ itself or a method value
+				}
+				if i := strings.Index(name, "["); i >= 0 {
+					name = name[:i] // generic instantiation
+				}
+				if name != p+"."+k {
+					o.Fail(Failure{Oracle: "package-symbol-identity", Key: "package-symbol:" + p + "." + k, Input: fmt.Sprintf("%simport(%q).%s", when, p, k), Detail: "is bound to Go function " + name})
+				}
 			}
-			fn := runtime.FuncForPC(v.Pointer())
-			if fn == nil {
-				continue
-			}
-			name := fn.Name() // e.g. strings.Contains, net/http.Get, github.com/mattn/anko/packages.init.func1
-			if strings.Contains(name, "mattn/anko/packages") || strings.Contains(name, "-fm") || strings.Contains(name, ".func") {
-				continue // helper defined in packages/ itself or a method value
-			}
-			if i := strings.Index(name, "["); i >= 0 {
-				name = name[:i] // generic instantiation
-			}
-			if name != p+"."+k {
-				o.Fail(Failure{Oracle: "package-symbol-identity", Key: "package-symbol:" + p + "." + k, Input: fmt.Sprintf("import(%q).%s", p, k), Detail: "is bound to Go function " + name})
+			for k, t := range env.PackageTypes[p] {
+				o.Sum.Evaluations++
+				o.Sum.Hist["package-type-entries"]++
+				for t.Kind() == reflect.Ptr {
+					t = t.Elem()
+				}
+				if t.PkgPath() == "" || strings.Contains(t.PkgPath(), "mattn/anko/packages") || (p == "os" && k == "Signal") {
+					continue
+				}
+				if t.Name() != k || t.PkgPath() != p {
+					o.Fail(Failure{Oracle: "package-symbol-identity", Key: "package-type:" + p + "." + k, Input: fmt.Sprintf("import(%q).%s", p, k), Detail: "is bound to Go type " + t.PkgPath() + "." + t.Name()})
+				}
 			}
 		}
-		for k, t := range env.PackageTypes[p] {
-			o.Sum.Evaluations++
-			o.Sum.Hist["package-type-entries"]++
-			for t.Kind() == reflect.Ptr {
-				t = t.Elem()
-			}
-			if t.PkgPath() == "" || strings.Contains(t.PkgPath(), "mattn/anko/packages") || (p == "os" && k == "Signal") {
-				continue
-			}
-			if t.Name() != k || t.PkgPath() != p {
-				o.Fail(Failure{Oracle: "package-symbol-identity", Key: "package-type:" + p + "." + k, Input: fmt.Sprintf("import(%q).%s", p, k), Detail: "is bound to Go type " + t.PkgPath() + "." + t.Name()})
-			}
-		}
-	}
 
+	}
+	checkTables("")
+	// scripts may rebind the symbols of THEIR copy of a package table - through whatever reference they hold - never the tables
+	for _, src := range []string{
+		"s = import(\"strings\")\ns.ToUpper = s.ToLower",
+		"func(p) { p.ToUpper = p.ToLower }(import(\"strings\"))",
+		"m = {\"p\": import(\"strings\")}\nm.p.Title = m.p.ToLower\nm[\"p\"].TrimSpace = m.p.ToLower",
+		"l = [import(\"sort\")]\nl[0].Ints = l[0].Strings",
+		"import(\"strings\").Repeat = import(\"strings\").Join",
+		"module mm { s = import(\"strings\") }\nmm.s.Contains = mm.s.HasPrefix",
+	} {
+		out := runScript(src, nil, coreEnv)
+		o.Sum.Evaluations++
+		if out.panicked {
+			o.Fail(Failure{Oracle: "no-panic", Key: "panic:package-rebind", Input: src, Detail: fmt.Sprint(out.panicVal)})
+		}
+		up := runScript("import(\"strings\").ToUpper(\"Abc\") + import(\"strings\").Title(\"x\") + import(\"strings\").Repeat(\"r\", 2)", nil, coreEnv)
+		if up.err != nil || up.val != "ABCXrr" {
+			o.Fail(Failure{Oracle: "package-symbol-identity", Key: "package-table-rebound", Input: src + "\n--- then, in a fresh environment ---\nimport(\"strings\").ToUpper(\"Abc\") ...",
+				Detail: fmt.Sprintf("expected ABCXrr, got %v (err %v)", up.val, up.err)})
+		}
+	}
+	checkTables("[after scripts that rebind symbols of imported packages] ")
 	// conversions over the pool
 	builtins := []string{"toInt", "toFloat", "toString", "toBool", "typeOf", "kindOf"}
 	for _, bname := range builtins {
@@ -271,7 +295,8 @@ func streamBuiltins(o *Out, r *rand.Rand, n int, thorough bool) {
 	var nilErr error
 	hostVals := []interface{}{nilURL, nilRe, nilPathErr, nilBig, nilErr, &url.URL{Scheme: "http", Host: "h"}, regexp.MustCompile("a+"), big.NewInt(77), time.Duration(1500) * time.Millisecond,
 		errors.New("plain error"), &os.PathError{Op: "open", Path: "/x", Err: errors.New("gone")}, int32(5), uint8(7), float32(1.5), struct{ X int }{1}, &struct{ X int }{2},
-		[]string{"a", "b"}, map[string]int64{"a": 1}, time.Unix(0, 0).UTC()}
+		[]string{"a", "b"}, map[string]int64{"a": 1}, time.Unix(0, 0).UTC(),
+		time.March, time.Saturday, os.FileMode(0o644), uint64(1<<63 + 5), ^uint64(0), uint(1 << 63), uintptr(9), uint16(65535), int8(-8), float32(-2.5), time.Duration(-3)}
 	for _, bname := range builtins {
 		for _, v := range hostVals {
 			for _, wrapped := range []bool{false, true} {
@@ -289,6 +314,21 @@ func streamBuiltins(o *Out, r *rand.Rand, n int, thorough bool) {
 				if out.panicked {
 					o.Fail(Failure{Oracle: "no-panic", Key: "panic:" + bname, Input: in, Detail: fmt.Sprint(out.panicVal)})
 					continue
+				}
+				// numbers of every Go numeric type (defined types included) convert as Go converts them
+				if rv := reflect.ValueOf(v); v != nil && (bname == "toInt" || bname == "toFloat") {
+					var want interface{}
+					switch {
+					case rv.Kind() >= reflect.Int && rv.Kind() <= reflect.Float64 && rv.Kind() != reflect.Uintptr+1000:
+						if bname == "toInt" {
+							want = rv.Convert(reflect.TypeOf(int64(0))).Interface()
+						} else {
+							want = rv.Convert(reflect.TypeOf(float64(0))).Interface()
+						}
+					}
+					if want != nil && (out.err != nil || !sameValue(want, out.val)) {
+						o.Fail(Failure{Oracle: "go-conversion", Key: "builtin-host:" + bname, Input: in, Detail: fmt.Sprintf("Go's conversion gives %v, builtin gave %v (%T) err=%v", want, out.val, out.val, out.err)})
+					}
 				}
 				if bname == "toString" || bname == "typeOf" || bname == "kindOf" {
 					want, _ := nativeBuiltin(bname, v)
